@@ -6,6 +6,8 @@ import AutomataVerif.Proofs.NFAElimDefs
 import AutomataVerif.Proofs.NFAOpsUnary
 import AutomataVerif.Proofs.NFAEq
 
+open AV.AL
+
 namespace AV.NFAElim
 open AV AV.NFA
 
